@@ -170,6 +170,77 @@ def lower_match_statements(tree):
 
 
 # ------------------------------------------------------------------------------------------------ 0b. partialmethod
+def lower_callable_instances(tree):
+    """module-level `name = Klass(<constants>)` with Klass a class of the same module whose `__init__` only stores its
+    parameters (`self.p = p`) and which defines `__call__`: `name` reads as the function `def name(<params of __call__>)`
+    with the body of `__call__`, `self.p` replaced by the constant it was built with (a function turned into a small
+    callable object). Returns the number of instances lowered."""
+    classes = {c.name: c for c in tree.body if isinstance(c, ast.ClassDef)}
+    n = 0
+    for i, st in enumerate(list(tree.body)):
+        if not (isinstance(st, ast.Assign) and len(st.targets) == 1 and isinstance(st.targets[0], ast.Name)
+                and isinstance(st.value, ast.Call) and isinstance(st.value.func, ast.Name) and st.value.func.id in classes
+                and all(isinstance(a, ast.Constant) for a in st.value.args)
+                and all(k.arg and isinstance(k.value, ast.Constant) for k in st.value.keywords)):
+            continue
+        k = classes[st.value.func.id]
+        if k.bases and not all(isinstance(b, ast.Name) and b.id == "object" for b in k.bases):
+            continue
+        init = next((f for f in k.body if isinstance(f, ast.FunctionDef) and f.name == "__init__"), None)
+        call = next((f for f in k.body if isinstance(f, ast.FunctionDef) and f.name == "__call__"), None)
+        if call is None or call.decorator_list or not call.args.args:
+            continue
+        fields = {}
+        if init is not None:
+            ps = [a.arg for a in init.args.args][1:]
+            bound = dict(zip(ps, st.value.args))
+            bound.update({kw.arg: kw.value for kw in st.value.keywords})
+            for d_, p_ in zip(reversed(init.args.defaults), reversed(ps)):
+                bound.setdefault(p_, d_)
+            ok = True
+            for b in init.body:
+                if isinstance(b, ast.Expr) and isinstance(b.value, ast.Constant):
+                    continue
+                if isinstance(b, ast.Assign) and len(b.targets) == 1 and isinstance(b.targets[0], ast.Attribute) \
+                        and isinstance(b.targets[0].value, ast.Name) and b.targets[0].value.id == init.args.args[0].arg \
+                        and isinstance(b.value, ast.Name) and b.value.id in bound and isinstance(bound[b.value.id], ast.Constant):
+                    fields[b.targets[0].attr] = bound[b.value.id]
+                else:
+                    ok = False
+            if not ok:
+                continue
+        elif st.value.args or st.value.keywords:
+            continue
+        me = call.args.args[0].arg
+        # self used for anything else than reading a stored constant: not a function in disguise
+        bad = False
+        for x in ast.walk(call):
+            if isinstance(x, ast.Name) and x.id == me:
+                par_ok = any(isinstance(y, ast.Attribute) and y.value is x and y.attr in fields and isinstance(y.ctx, ast.Load)
+                             for y in ast.walk(call))
+                bad = bad or not par_ok
+        if bad:
+            continue
+
+        class S(ast.NodeTransformer):
+            def visit_Attribute(self, a):
+                self.generic_visit(a)
+                if isinstance(a.value, ast.Name) and a.value.id == me and a.attr in fields:
+                    return ast.copy_location(clone(fields[a.attr]), a)
+                return a
+        body = [S().visit(clone(b)) for b in call.body]
+        fn = ast.FunctionDef(name=st.targets[0].id, args=clone(call.args), body=body, decorator_list=[], returns=None,
+                             type_comment=None, lineno=st.lineno, col_offset=st.col_offset)
+        fn.args.args = fn.args.args[1:]
+        if hasattr(call, "type_params"):
+            fn.type_params = []
+        ast.fix_missing_locations(fn)
+        idx = next(j for j, y in enumerate(tree.body) if y is st)
+        tree.body[idx] = fn
+        n += 1
+    return n
+
+
 def lower_partialmethods(tree):
     """class-level `name = partialmethod(method, <constants>)` read as the method it defines: `def name(self, <remaining
     parameters>)` with the body of `method`, the bound parameters replaced by the constants and what that makes constant
